@@ -24,8 +24,8 @@ RULE = ('product of kind (6) x spelling (24; plus 4 unusual entry names for the 
 NAMES_X = ['n.trashinfo', ' s p ', '-dash', 'nl\nx', '100%s %d%', '.dot']
 SPELL_X = ['x', '/abs/x', './x', 'd/../x', 'x/', 'x//', './/x', 'sd/../x', 'sdv/../x', 'ld/x', 'ldv/x', 'ld/../w/x']
 SPELL_DOT = ['.', '..', './', '../', 'd/.', 'd/..', 'd/./', 'd/../', 'sd/..', '/mnt/v2', '/mnt/v2/', '', 'nonexistent',
-             'd']
-OPTS = ['-', '-f', '-iy', '-in', '-ieof', '-v', '-vv', 'td-same', 'td-other', 'hf-flag', 'hf-both', '-f-v', '-iy-v-td-same', '-f-hf-both', 'odd-home']
+             'd', '../w', 'd/../../w/']          # the last two name the working directory of the process itself (a real entry: must be trashed whole)
+OPTS = ['-', '-f', '-iy', '-in', '-ieof', '-v', '-vv', 'td-same', 'td-link-dotdot', 'td-other', 'hf-flag', 'hf-both', '-f-v', '-iy-v-td-same', '-f-hf-both', 'odd-home']
 LAYOUTS = ['home-cold', 'home-warm-samename', 'home-warm-orphans', 'home-warm-dangling', 'home-info-is-file', 'home-info-dangling', 'home-info-missing', 'vol-sticky', 'vol-plain', 'vol-blocked']
 
 
@@ -51,6 +51,8 @@ def cases(tier):
                     out.append({'kind': k, 'sp': sp, 'opt': o, 'lay': lay})
             for sp in SPELL_DOT:
                 out.append({'kind': 'file', 'sp': sp, 'opt': o, 'lay': lay})
+            if o in ('-', '-f', '-f-v', '-f-hf-both', '-iy'):
+                out.append({'kind': 'tree-ro', 'sp': './x', 'opt': o, 'lay': lay})          # a read-only tree keeps its modes
             if o in ('-', '-f', 'td-same', 'hf-both', '-v', '-vv'):
                 for nm in NAMES_X:
                     for k in ('file', 'tree', 'ldang'):
@@ -80,6 +82,8 @@ def make_world(kind, lay, name='x'):
     W.link(B + '/ldv', '/mnt/v2/p')
     W.dir('/mnt/v2/tdother')          # for --trash-dir on another volume
     W.dir(P + '/tdsame')
+    W.dir(B + '/tdsame/files').dir(B + '/tdsame/info').file(B + '/tdsame/files/x', 'decoy: not the trash directory that was named\n')
+    W.file(B + '/tdsame/info/x.trashinfo', '[Trash Info]\nPath=%s/decoy\nDeletionDate=2001-01-01T00:00:00\n' % B)
     if lay == 'home-warm-samename':
         td = scen.HOME_TRASH
         W.dir(td, mode=0o700).dir(td + '/files', mode=0o700).dir(td + '/info', mode=0o700)
@@ -135,6 +139,9 @@ def run_case(c):
         argv.append(o)
     elif o == 'td-same':
         argv += ['--trash-dir', P + '/tdsame']
+    elif o == 'td-link-dotdot':
+        # the same directory spelled through a symlink and '..': ld -> P/w2, so ld/../tdsame IS P/tdsame; a lexical collapse would name B/tdsame (a decoy)
+        argv += ['--trash-dir', 'ld/../tdsame']
     elif o == 'td-other':
         argv += ['--trash-dir', '/mnt/v2/tdother' if not B.startswith('/mnt/v2') else '/home/u/tdx']
     elif o == '-f-v':
